@@ -52,6 +52,23 @@ Definition Lquad_mult w (v : list Q) (b : option (list Q)) (c : Q) : Leaf (WS w)
   leaf_quad (WS w) (vmul v) (vmul v) false b c.
 Definition Lquad_mat w (m : list (list Q)) (b : option (list Q)) (c : Q) : Leaf (WS w) :=
   leaf_quad (WS w) (mvec m) (mvec (transpose (length w) m)) false b c.
+(* simple_functional(space, fcall = (a/2)<x,x>, grad = a x, grad_lip = a, ...): a user-defined leaf
+   (its gradient callable may return its argument itself when a = 1) *)
+Definition Lscaledsq w (a : Q) : Leaf (WS w) :=
+  @mkLeaf Q (WS w) (fun x : list Q => ((a / 2) * wdot w x x)%num) (fun x : list Q => vscal a x) (LFin a) false.
+(* simple_functional(space, fcall = <x,b>, grad = lambda x: b (the stored vector itself), linear=True) *)
+Definition Lsimple_lin w (b : list Q) : Leaf (WS w) :=
+  @mkLeaf Q (WS w) (fun x : list Q => wdot w x b) (fun _ : list Q => b) LNan true.
+(* QuadraticForm(ScalingOperator(s), vector=b, constant=c).convex_conj as the code builds it:
+   QuadraticForm(0.25 * op.inverse, vector = -0.25 (opinv^*(b) + opinv(b)), constant = 0.25 <b, opinv b> - c) *)
+Definition Lquadconj_scal w (s : Q) (b : option (list Q)) (c : Q) : Leaf (WS w) :=
+  let k := ((1 # 4) * (1 / s))%num in
+  match b with
+  | None => leaf_quad (WS w) (vscal k) (vscal k) false None (- c)%num
+  | Some v => leaf_quad (WS w) (vscal k) (vscal k) false
+                (Some (vscal (- (1 # 4))%num (vadd (vscal (1 / s)%num v) (vscal (1 / s)%num v))))
+                ((1 # 4) * wdot w v (vscal (1 / s)%num v) - c)%num
+  end.
 (* f.grad_lipschitz = c  (the property setter) on a leaf *)
 Definition Lsetlip w (l : Leaf (WS w)) (c : @lip Q) : Leaf (WS w) :=
   @mkLeaf Q (WS w) (lf_val l) (lf_grad l) c (lf_linear l).
